@@ -324,6 +324,8 @@ def split_cases(rng, count):
         top = rng.choice(tops_for(dz))
         m = rect(dx, dy, dz, atmos=rng.choice([0, 1, 2]), origin=[0., 0., top])
         if rng.random() < 0.4: m['rotate'] = rng.choice([30., 45., -60.])
+        cen = rng.choice([None, 'centroid', 'offset'])      # column(..., centre=...): centre_specified = 1
+        if cen: m['centres'] = cen
         col = rng.randrange(nx * ny)
         surf = random_surfaces(rng, nx * ny, dz, top) if rng.random() < 0.7 else None
         if surf is not None and rng.random() < 0.5:
@@ -335,6 +337,8 @@ def split_cases(rng, count):
         corners = convex_polygon(rng, 4)
         top = rng.choice(tops_for((10., 5.)))
         m = gadget(corners, [0, 1, 2, 3], top=top)
+        cen = rng.choice([None, 'centroid', 'offset'])
+        if cen: m['centres'] = cen
         cases.append({'mesh': m, 'surfaces': special_surfaces(rng, len(m['columns']), m['dz'], top, first=len(cases)), 'seed': rng.randrange(1 << 30), 'lattice': 0,
                       'op': {'name': 'split', 'column': 0, 'node': rng.randrange(4)}})
     return cases
@@ -354,4 +358,98 @@ def layer_cases(rng, thorough):
                         m = rect([10., 20., 30.], [10., 40.], dz, atmos=atm, origin=[0., 0., top])
                         cases.append({'mesh': m, 'surfaces': random_surfaces(rng, 6, dz, top), 'seed': rng.randrange(1 << 30),
                                       'op': {'name': 'refine_layers', 'layers': layers, 'factor': factor}})
+    return cases
+
+
+# ---------------------------------------------------------------- sequences of operations
+def _sp(col, node): return {'name': 'split', 'column': col, 'node': node}
+def _tri(target, take=None): return {'name': 'triangulate', 'target': target, 'take': take}
+def _ref(target, mode=False, take=None): return {'name': 'refine', 'target': target, 'bisect': mode, 'edge': [], 'take': take}
+
+
+def sequence_patterns(rng, ncols, col=None):
+    """two- and three-step sequences; the first step names columns by index, later steps relative to
+    the step before (c11_oracle.resolve_target)"""
+    c = rng.randrange(ncols) if col is None else col
+    k = rng.randrange(4)
+    mode = rng.choice(MODES)
+    S = sorted(set([c] + ([rng.randrange(ncols)] if col is None and rng.random() < 0.5 else [])))
+    ref0 = {'name': 'refine', 'columns': S, 'bisect': mode, 'edge': []}
+    tri0 = {'name': 'triangulate', 'columns': [c]}
+    spn = {'name': 'split', 'target': 'created', 'nodes_in': [4], 'pick': rng.randrange(8), 'node': k}
+    return [
+        ('split>triangulate(same)', [_sp(c, k), _tri('same')]),
+        ('split>triangulate(created)', [_sp(c, k), _tri('created')]),
+        ('split>triangulate(touched)', [_sp(c, k), _tri('touched')]),
+        ('split>refine(same)', [_sp(c, k), _ref('same', mode)]),
+        ('split>refine(touched)', [_sp(c, k), _ref('touched', mode)]),
+        ('split>refine(neighbours)', [_sp(c, k), _ref('neighbours', False)]),
+        ('refine>split(created)', [ref0, spn]),
+        ('refine>triangulate(created)', [ref0, _tri('created', take=[rng.randrange(16), rng.randrange(16)])]),
+        ('refine>refine(created)', [ref0, _ref('created', rng.choice(MODES), take=[rng.randrange(16) for _ in range(3)])]),
+        ('triangulate>refine(created)', [tri0, _ref('created', mode)]),
+        ('triangulate>refine(neighbours)', [tri0, _ref('neighbours', False)]),
+        ('triangulate>split(neighbours)', [tri0, {'name': 'split', 'target': 'neighbours', 'nodes_in': [4], 'pick': rng.randrange(4), 'node': k}]),
+        ('split>triangulate(same)>refine(created)', [_sp(c, k), _tri('same'), _ref('created', mode)]),
+        ('refine>split(created)>triangulate(touched)', [ref0, spn, _tri('touched')]),
+        ('split>refine(touched)>triangulate(created)', [_sp(c, k), _ref('touched', False), _tri('created', take=[rng.randrange(8), rng.randrange(8)])]),
+        ('triangulate>refine(created)>split(created)', [tri0, _ref('created', False), spn]),
+        ('split>refine_layers>triangulate(same)', [_sp(c, k), {'name': 'refine_layers', 'layers': [], 'factor': 2}, _tri('same')]),
+        ('split>split(neighbours)>triangulate(touched)', [_sp(c, k), {'name': 'split', 'target': 'neighbours', 'nodes_in': [4], 'pick': rng.randrange(4), 'node': rng.randrange(4)}, _tri('touched')]),
+    ]
+
+
+def sequence_cases(rng, reps, infos=()):
+    """compositions ("earlier refinements" as inputs) on geometries whose column centres are
+    SPECIFIED (column(..., centre=...): at the centroid / at another interior point) or not; all
+    clauses are evaluated after each step"""
+    cases = []
+    for rep in range(reps):
+        for centres in ('centroid', 'offset', None):
+            nx, ny = rng.choice([(3, 2), (2, 2), (3, 3)])
+            dx = [rng.choice([10., 20., 40., 12.5]) for _ in range(nx)]; dy = [rng.choice([10., 30., 7.5]) for _ in range(ny)]
+            dz = rng.choice([[10.], [5., 10.], [2., 3., 4.]])
+            top = rng.choice(tops_for(dz))
+            for name, steps in sequence_patterns(rng, nx * ny):
+                m = rect(dx, dy, dz, atmos=rng.choice([0, 1, 2]), origin=[0., 0., top])
+                if centres: m['centres'] = centres
+                if rng.random() < 0.3: m['rotate'] = rng.choice([30., 45., -60.])
+                cases.append({'mesh': m, 'surfaces': random_surfaces(rng, nx * ny, dz, top) if rng.random() < 0.6 else None,
+                              'seed': rng.randrange(1 << 30), 'shape': 'seq:' + name, 'lattice': 5 if nx * ny <= 6 else 0, 'npts': 4, 'steps': steps})
+        # constructed single columns (general convex quadrilaterals) with a specified centre
+        for centres in ('centroid', 'offset'):
+            corners = convex_polygon(rng, 4)
+            top = rng.choice(tops_for((10., 5.)))
+            for name, steps in sequence_patterns(rng, 5, col=0)[:6]:
+                m = gadget(corners, [0, 1, 2, 3], top=top); m['centres'] = centres
+                cases.append({'mesh': m, 'surfaces': special_surfaces(rng, len(m['columns']), m['dz'], top, first=len(cases)),
+                              'seed': rng.randrange(1 << 30), 'shape': 'seq:' + name, 'npts': 6, 'steps': steps})
+        # polygons: decompose, then go on with the new columns
+        for n, pl in ((5, [1, 0, 0, 0]), (6, [1, 0, 1, 0]), (8, [1, 1, 1, 1]), (7, [0] * 7)):
+            pts, straight = polygon_with_straight(rng, len(pl), pl, rng.randrange(n))
+            top = rng.choice(tops_for((10., 5.)))
+            dec = {'name': 'decompose', 'columns': [0]}
+            for name, steps in (('decompose>refine(created)', [dec, _ref('created', rng.choice(MODES))]),
+                                ('decompose>split(created)', [dec, {'name': 'split', 'target': 'created', 'nodes_in': [4], 'pick': rng.randrange(4), 'node': rng.randrange(4)}]),
+                                ('decompose>triangulate(created)', [dec, _tri('created', take=[rng.randrange(6)])]),
+                                ('decompose>refine(neighbours)>triangulate(created)', [dec, _ref('neighbours', False), _tri('created', take=[0, 5])])):
+                m = decompose_mesh(pts, ring=True, top=top); m['centres'] = rng.choice(['centroid', 'offset', None])
+                cases.append({'mesh': m, 'surfaces': special_surfaces(rng, len(m['columns']), m['dz'], top, first=len(cases)),
+                              'seed': rng.randrange(1 << 30), 'shape': 'seq:' + name, 'npts': 5,
+                              'polygon': {'n': n, 'ns': sum(pl), 'placement': pl, 'straight': straight}, 'steps': steps})
+    # shipped geometries (g1, g3, g5, g6 list their column centres: centre_specified = 1)
+    for info in infos:
+        nn, nbr = info['nn'], info['nbr']
+        ok = [i for i in range(len(nn)) if nn[i] == 4 and all(nn[j] <= 4 for j in nbr[i]) and all(nn[k] <= 4 for j in nbr[i] for k in nbr[j])]
+        if not ok: continue
+        for rep in range(info.get('seq_reps', 1) * reps):
+            c = rng.choice(ok)
+            pats = sequence_patterns(rng, len(nn), col=c)
+            for name, steps in rng.sample(pats[:8], 2) + rng.sample(pats[8:], 1):
+                cases.append({'mesh': {'kind': 'file', 'name': info['name']}, 'seed': rng.randrange(1 << 30), 'shape': 'seq:' + name, 'npts': 4, 'steps': steps})
+        polys = [i for i in range(len(nn)) if nn[i] > 4]
+        if polys:
+            c = rng.choice(ok)
+            cases.append({'mesh': {'kind': 'file', 'name': info['name']}, 'seed': rng.randrange(1 << 30), 'shape': 'seq:refine>decompose(all)', 'npts': 4,
+                          'steps': [{'name': 'refine', 'columns': [c], 'bisect': False, 'edge': []}, {'name': 'decompose', 'target': 'all', 'take': None}]})
     return cases
